@@ -114,7 +114,7 @@ def run_one(sh, case, driver='generated'):
         try:
             with quiet():
                 if api == 'func':
-                    arr = np.asfortranarray(sigs) if case.get('layout') == 'F' else np.array(sigs, copy=True)
+                    arr = np.asfortranarray(np.array(sigs, copy=True)) if case.get('layout') == 'F' else np.array(sigs, copy=True)
                     res = compute_features_2d(arr, fs, f_range, compute_features_kwargs=opts,
                                               axis=0, return_samples=rs, n_jobs=case['n_jobs'], progress=case['progress'])
                 else:
@@ -138,7 +138,21 @@ def run_one(sh, case, driver='generated'):
                         bg = BycycleGroup(center_extrema=o.get('center_extrema', 'peak'), burst_method=o.get('burst_method', 'cycles'),
                                           burst_kwargs=o.get('burst_kwargs'), thresholds=o.get('threshold_kwargs'),
                                           find_extrema_kwargs=o.get('find_extrema_kwargs'), return_samples=rs)
-                    bg.fit(np.array(sigs, copy=True), fs, f_range, axis=0, n_jobs=case['n_jobs'], progress=case['progress'])
+                    arr = np.array(sigs, copy=True)
+                    if case.get('buffer_history'):
+                        # the same array OBJECT was fitted before while it held other samples (a re-used acquisition buffer)
+                        saved = dict(poollog.STATE)
+                        poollog.STATE['log'], poollog.STATE['delays'] = None, {}
+                        try:
+                            arr[...] = sigs[::-1]
+                            bg.fit(arr, fs, f_range, axis=0, n_jobs=1)
+                            sh.note('group_object_fitted_before_on_the_same_array_object')
+                        except Exception:
+                            sh.note('group_object_first_fit_raised')
+                        finally:
+                            poollog.STATE.update(saved)
+                            arr[...] = sigs
+                    bg.fit(arr, fs, f_range, axis=0, n_jobs=case['n_jobs'], progress=case['progress'])
                     res = bg.df_features
                     for i in range(n):
                         if bg.models[i].df_features is not res[i] and poollog.tables_equal(bg.models[i].df_features, res[i]):
@@ -236,7 +250,7 @@ def make_case(rng, n, order=None, n_jobs=None, api='func'):
         n_jobs = int(rng.choice([1, 2, 3, n, n + 3, -1]))
     return dict(sigs=sigs, fs=fs, f_range=(lo, hi), kwargs=kw, return_samples=bool(rng.random() < 0.7),
                 n_jobs=n_jobs, progress=[None, None, 'tqdm', 'tqdm.notebook'][int(rng.integers(0, 4))],
-                delays=delays, api=api, alias=alias, set_attrs=(None if api != 'obj' else [None, 'before_first_fit', 'after_a_fit'][int(rng.integers(0, 3))]), reuse_options=bool(rng.random() < 0.35), fake_tqdm=bool(rng.random() < 0.5), layout=['C', 'C', 'F'][int(rng.integers(0, 3))])
+                delays=delays, api=api, alias=alias, buffer_history=bool(rng.random() < 0.5), set_attrs=(None if api != 'obj' else [None, 'before_first_fit', 'after_a_fit'][int(rng.integers(0, 3))]), reuse_options=bool(rng.random() < 0.35), fake_tqdm=bool(rng.random() < 0.5), layout=['C', 'C', 'F'][int(rng.integers(0, 3))])
 
 
 def run(sh):
